@@ -11,9 +11,10 @@ MUTANTS = [
      "expect": "any"},   # equivalent mutant: the cost is only ever cached once it is definitive
     {"name": "c04_matcher_lower_bound_from_largest", "property": "C04", "file": "matching.py",
      "old": "                lb = sum(smallest(\n", "new": "                lb = sum(largest(\n"},
-    {"name": "c04_collection_upper_uses_lower", "property": "C04", "file": "edits.py",
-     "old": "total_cost.upper_bound -= e.initial_bounds.upper_bound - e.bounds().upper_bound",
-     "new": "total_cost.upper_bound -= e.initial_bounds.upper_bound - e.bounds().lower_bound"},
+    # (the line the earlier mutant c04_collection_upper_uses_lower altered was removed by fix b32d610)
+    {"name": "c04_collection_lower_uses_upper", "property": "C04", "file": "edits.py",
+     "old": "                total_cost.lower_bound += e.bounds().lower_bound\n",
+     "new": "                total_cost.lower_bound += e.bounds().upper_bound\n"},
     {"name": "c04_levenshtein_lower_from_max_fringe", "property": "C04", "file": "levenshtein.py",
      "old": "                max(base_bounds.lower_bound, min(min(\n",
      "new": "                max(base_bounds.lower_bound, max(min(\n"},
